@@ -210,6 +210,7 @@ type gen struct {
 	recCall    span
 	recCallOff int
 	forcePick  string
+	forceMod   string // "" = random (trivia.go)
 }
 
 func newGen(r *lib.RNG) *gen {
@@ -244,6 +245,9 @@ func (g *gen) build() *caseT {
 	c.Overflow = g.overflow
 	d := g.r.Weighted([]int{18, 18, 16, 14, 12, 11, 11}) // 0..6
 	g.modMode = []string{"none", "funcs", "top"}[g.r.Weighted([]int{55, 28, 17})]
+	if g.forceMod != "" {
+		g.modMode = g.forceMod
+	}
 	if g.modMode == "funcs" && d == 0 {
 		d = 1 + g.r.Intn(3)
 	}
@@ -592,14 +596,15 @@ func (g *gen) writeTarget(e *emitter, k int, ind string) {
 				i = g.r.Intn(n)
 			}
 			text = expand(placeTemplates[i], ind)
+			ex := expand(g.kind.expr, ind) // (multi-line function literals as operands: %I / %J of the expression itself)
 			if j := strings.Index(text, "\x01"); j >= 0 {
 				text = strings.Replace(text, "\x01", "", 1)
 				subLo = j
-				subHi = strings.Index(text, "\x02") - 1 + len(g.kind.expr) // \x00 still inside
+				subHi = strings.Index(text, "\x02") - 1 + len(ex) // \x00 still inside
 				text = strings.Replace(text, "\x02", "", 1)
 			}
 			off = strings.Index(text, "\x00")
-			text = strings.Replace(text, "\x00", g.kind.expr, 1)
+			text = strings.Replace(text, "\x00", ex, 1)
 			g.shape = append(g.shape, fmt.Sprintf("place:%d", i))
 		} else {
 			text = expand(g.kind.stmt, ind)
